@@ -98,7 +98,7 @@ Definition table : list (site * status) := [
   (mk_site F_dm (s "merge_selection_trees") (s "panic") (s "Cannot merge selection trees of different types") 1, Known (s "conflicting-response-key") _ merge_unchecked_refuted);
   (mk_site F_ssv (s "visit_fields_in_selection_set_impl") (s "expect") (s "Type system error") 1, Guarded (s "C08_visitor_fragments_defined (guard: the document is accepted by check over a well-formed schema; C03_accepted_fields_and_fragments_defined + C01.Model.visit_vars)") _ visitor_fragments_defined);
   (mk_site F_tp (s "check_fragment_condition") (s "expect") (s "Type system error") 1, unspread);
-  (mk_site F_tp (s "check_skip_directive") (s "expect") (s "Type system error") 4, unspread);
+  (mk_site F_tp (s "check_skip_directive") (s "expect") (s "Type system error") 2, unspread);
   (mk_site F_tp (s "generate_branching_conditions") (s "expect") (s "Type system error") 2, unspread);
   (mk_site F_tp (s "generate_branching_conditions") (s "panic") (s "Type system error") 1, unspread);
   (mk_site F_tp (s "get_fields_for_selection_set") (s "expect") (s "Type system error") 4, unspread);
